@@ -214,7 +214,7 @@ class SimFS:
 
   # -- handles ---------------------------------------------------------
   def open(self, path, mode='r', lazy_create=False, text_encoding='utf-8',
-           missing_exc=FileNotFoundError, werr=None):
+           missing_exc=FileNotFoundError, werr=None, raw=False):
     p = self.norm(path)
     binary = 'b' in mode
     if 'r' in mode and '+' not in mode:
@@ -232,6 +232,7 @@ class SimFS:
         raise FileNotFoundError(errno.ENOENT, 'no such directory', p)
       h = SimWriteHandle(self, p, binary, append='a' in mode,
                          encoding=text_encoding, werr=werr)
+      h.raw = raw   # unbuffered (buffering=0): write(2) semantics - a write may be SHORT instead of failing
       if not lazy_create:
         h._create()
       return h
@@ -376,9 +377,16 @@ class SimWriteHandle:
       if d:
         self.pending.append((self.pos, d))
         self.pos += len(d)
+      if getattr(self, 'raw', False) and d:
+        # raw file: the kernel stored what fitted and reports the short count; no exception
+        self._sync()
+        self.fs._count('short_write')
+        return len(d)
       if self.werr is not None:
         raise self.werr(str(e)) from None
       raise
+    if getattr(self, 'raw', False):
+      self._sync()        # nothing stays in user space
     return len(data)
 
   def writable(self):
